@@ -127,3 +127,11 @@ ASSUMPTIONS = [
     'evaluate_equals(a, b) is true iff the values are deeply equal (proved in unit compare, imported as a stub)',
     'R1, R3, R11, R13, R14 (type ascription on an empty vec![])',
 ]
+
+BOUNDED = {
+    'C05': [{'name': 'string-search-builtins', 'driver': 'strbif', 'args': [],
+             'functions': ['core::substring_before', 'core::substring_after', 'core::contains', 'core::starts_with', 'core::ends_with'],
+             'bound': 'all strings of length <= 3 over {a, b, U+017C (2 bytes), U+20AC (3 bytes), U+1F40E (4 bytes)} x all match strings of length <= 2, through parse+evaluate under catch_unwind, '
+                      'against a character-sequence reference (these functions index str by byte offsets, which Verus cannot reason about)'}],
+}
+BOUNDED['C08'] = BOUNDED['C05']
